@@ -691,7 +691,11 @@ class Common:
                 # them as separate relays, instead of merging them all
                 # together like this.
                 relay_hints = []
-                for rhs in h.get("hints", []):
+                their_relay_hints = h.get("hints", [])
+                if not isinstance(their_relay_hints, list):
+                    log.msg(f"invalid relay hints: {h!r}")
+                    their_relay_hints = []
+                for rhs in their_relay_hints:
                     h = parse_tcp_v1_hint(rhs)
                     if h:
                         relay_hints.append(h)
